@@ -168,7 +168,8 @@ func newPluginContainer() *PluginContainer {
 
 func (p *PluginContainer) cloneAndAppendMiddle(plugins ...Plugin) *PluginContainer {
 	middle := newPluginSingleContainer()
-	middle.plugins = append(p.middle.GetAll(), plugins...)
+	// copy: appending to the parent's slice would let sibling containers share (and overwrite) its spare capacity
+	middle.plugins = append(append([]Plugin{}, p.middle.GetAll()...), plugins...)
 
 	newPluginContainer := newPluginContainer()
 	newPluginContainer.middle = middle
